@@ -181,7 +181,6 @@ where
                 // it's not => check capicity
                 if size < self.k {
                     // space left => add to top k
-                    debug_assert!(count == 1);
                     v.insert(1);
                     self.tree.insert(TreeEntry {
                         obj: Rc::clone(&rc),
